@@ -149,6 +149,21 @@ impl<'a, 'b> RealBody<'a, 'b> {
                         }
                     }
                 }
+                12 if self.lang.has_difficulty => {
+                    // a difficulty switch over a string argument whose cases encode to different lengths: the per-difficulty copies
+                    // of the instruction then have different sizes
+                    let ops: Vec<u16> = self.lang.sigs.iter().filter(|(op, sig)| !self.lang.intrinsic_ops.contains(op) && sig.real_params().iter().filter(|p| p.is_string()).count() == 1 && !sig.params.iter().any(|p| matches!(p.kind, PKind::Off | PKind::Time))).map(|(op, _)| *op).collect();
+                    if !ops.is_empty() {
+                        self.feat("string_diff_switch");
+                        let op = *self.t.pick(&ops);
+                        let sig = self.lang.sigs[&op].clone();
+                        let args: Vec<String> = sig.real_params().iter().map(|p| if p.is_string() {
+                            let cases: Vec<String> = (0..(2 + self.t.below(3))).map(|_| fmt_str_lit(*self.t.pick(&["a", "abcd", "abcdefgh", "Boss", "BossLunaticOnly", "", "漢字"]))).collect();
+                            cases.join(" : ")
+                        } else { let a = gen_arg(self.t, p, false, false); print_arg(&a, p) }).collect();
+                        out.push_str(&format!("{}ins_{}({});\n", pad, op, args.join(", ")));
+                    }
+                }
                 7 if self.lang.has_interrupt => { self.feat("interrupt"); out.push_str(&format!("{}interrupt[{}]:\n", pad, self.t.below(8))); }
                 8 if self.opts.control_flow && self.lang.has_jmp => {
                     // forward or backward goto
